@@ -237,7 +237,22 @@ def skip_discipline_holds(ctx):
 
         paths = I.run(sb, [ClosureV(path, [P("self"), P("bytes")], "coroutine"), P("cx")], seeds=seeds)
         disc = c13.skip_capacity_discipline(I, list(paths) + list(I.panic_paths))
-        _PREMISE["v"] = bool(disc) and all(ok for ok, _w, _s in disc.values())
+        # ... and the explicit panic is only reachable under `bytes read > requested` (which the discipline excludes)
+        guarded = True
+        for p in I.panic_paths:
+            pe = [e for e in p.events if e.kind == "panic"]
+            if not pe:
+                continue
+            g = False
+            for c, truth, _s, _at in p.state.pc:
+                if isinstance(c, tuple) and c and c[0] == "cmp" and P("bytes") in atoms(c) and any(isinstance(x, tuple) and x and x[0] == "await" for x in atoms(c)):
+                    l_is_counter = P("bytes") not in atoms(c[2])
+                    op = c[1]
+                    if (op == "Gt" and l_is_counter and truth) or (op == "Lt" and not l_is_counter and truth) or (op == "Le" and l_is_counter and not truth) or (op == "Ge" and not l_is_counter and not truth):
+                        g = True
+            if not g and any((e.name or "").split("::")[-1] in ("panic", "panic_fmt", "begin_panic", "panic_explicit") or "panic" in (e.name or "") for e in pe):
+                guarded = False
+        _PREMISE["v"] = bool(disc) and all(ok for ok, _w, _s in disc.values()) and guarded
         _PREMISE["ctx"] = ctx
     return _PREMISE["v"]
 
